@@ -272,6 +272,29 @@ def touch_bases(cls):
                     pass
 
 
+def provoke_refusals(cls):
+    """constructions and conversions of a model class that are refused (no arguments, an undeclared keyword, a foreign list
+    member, an empty / unknown / duplicated element tree).  Outcomes are ignored: what the class does for valid input
+    afterwards must not depend on these having been attempted."""
+    import warnings
+    import xml.etree.ElementTree as ET
+
+    n = cls.__name__
+    trees = [ET.Element(n), ET.fromstring(f"<{n}><NOSUCHTAG>1</NOSUCHTAG></{n}>"), ET.fromstring(f"<{n}><NOSUCHAGG><X>1</X></NOSUCHAGG><NOSUCHAGG><X>1</X></NOSUCHAGG></{n}>"), ET.Element("NOT" + n)]
+    with warnings.catch_warnings():
+        warnings.simplefilter("ignore")
+        for attempt in (lambda: cls(), lambda: cls(no_such_keyword=1), lambda: cls(object()), lambda: cls("text"), lambda: cls(None)) + tuple((lambda e=e: cls.from_etree(e)) for e in trees):
+            try:
+                attempt()
+            except Exception:
+                pass
+
+
+def disturb_class(cls):
+    touch_bases(cls)
+    provoke_refusals(cls)
+
+
 def vacuous(tally, msg):
     """vacuity guard: a harness self-check, raised only when nothing failed - a run that found violations is allowed to
     have explored less than usual (e.g. because valid baselines could not be built, which is itself reported)"""
